@@ -339,7 +339,7 @@ fn main() {
     ev.set_extra("corpus_sources", json!(corpus.len()));
     ev.set_extra("regression_sources", json!(regr.len()));
     let cases_override: Option<u64> = opts.extra.iter().position(|x| x == "--cases").and_then(|i| opts.extra.get(i + 1)).and_then(|x| x.parse().ok());
-    let total: u64 = regr.len() as u64 + DEEP_PAREN_CASES as u64 + cases_override.unwrap_or(opts.tier.pick(10_000u64, 400_000u64));
+    let total: u64 = regr.len() as u64 + DEEP_PAREN_CASES as u64 + cases_override.unwrap_or(opts.tier.pick(14_000u64, 250_000u64));
     let verbose = opts.has_flag("--verbose");
     let t_start = std::time::Instant::now();
     let exe = std::env::current_exe().unwrap();
